@@ -362,7 +362,9 @@ CLI_BAD = [["--lat", "abc", "--long", "4"], ["--lat", "52"], ["--long", "4"], ["
            ["--lat", "52", "--long", "4", "--locations", ""], ["--lat", "52", "--long", "4", "--locations", "()"],
            ["--lat", "52", "--long", "4", "--filter-time", "-1"], ["--lat", "52", "--long", "4", "--max-range", "far"],
            ["--lat", "52", "--long", "4", "--host", "not-an-ip"], ["--lat", "52", "--long", "4", "--locations", "(x,1.0)", "(y,2,3)"],
-           ["--lat", "", "--long", ""], ["--lat", "52", "--long", "4", "--no-such-option"], ["--lat", "52", "--long", "4", "--locations", ",,"]]
+           ["--lat", "", "--long", ""], ["--lat", "52", "--long", "4", "--no-such-option"], ["--lat", "52", "--long", "4", "--locations", ",,"],
+           # a log folder that cannot be created (under a missing /proc entry; where a file already is)
+           ["--lat", "52", "--long", "4", "--log-folder", "/proc/nope/x"], ["--lat", "52", "--long", "4", "--log-folder", "/etc/passwd"]]
 
 
 def cli_pty_event(bindir, args, tag):
@@ -388,7 +390,7 @@ def cli_pty_event(bindir, args, tag):
 
 
 def cli_event(bindir, args):
-    r = subprocess.run([os.path.join(bindir, "radar")] + args + ["--log-folder", "/tmp/radar-cli-logs"], stdin=subprocess.DEVNULL,
+    r = subprocess.run([os.path.join(bindir, "radar")] + args + ([] if "--log-folder" in args else ["--log-folder", "/tmp/radar-cli-logs"]), stdin=subprocess.DEVNULL,
                        stdout=subprocess.PIPE, stderr=subprocess.PIPE, timeout=20)
     return {"ev": "cli", "args": args, "invalid": 1, "exit": r.returncode, "panic": 1 if b"panicked" in r.stderr else 0,
             "stderr": r.stderr.decode("latin-1")[:160]}
